@@ -2,6 +2,7 @@
 //! pre-state, against `arm::spec_step` (serves C01, C02, C03, C04).
 use crate::arm::*;
 use crate::h::*;
+use crate::stubs::G;
 use chia_consensus::conditions::*;
 use chia_consensus::validation_error::ErrorCode;
 use chia_protocol::Bytes32;
@@ -341,3 +342,69 @@ arm_harness!(arm_cost_two_byte_opcode, crate::arm::pa_softfork, 4, {
     kani::cover!(o.err.is_none());
     finish(w);
 });
+
+// ---- messages (C01) ---------------------------------------------------------------------------------
+
+fn msg_arm(send: bool) {
+    let (mut w, spend) = world_with(SYM_COSTS | SYM_AMOUNTS);
+    let mb: [u8; 3] = kani::any();
+    let m = w.a.new_atom(&mb).unwrap();
+    let other1 = w.a.new_atom(&[0x61; 32]).unwrap();
+    let other2 = w.a.new_atom(&[0x62; 32]).unwrap();
+    let own_mode: u8 = kani::any();
+    let sid: u8 = kani::any();
+    kani::assume(sid <= 7);
+    let amt: u64 = kani::any();
+    unsafe {
+        G.p_n1 = m;
+        G.p_n2 = other1;
+        G.p_n3 = other2;
+        G.p_u8 = own_mode;
+        G.p_sid = sid;
+        G.p_u64 = amt;
+    }
+    let op: u16 = if send { 66 } else { 67 };
+    let coin_amount = spend.coin_amount;
+    let list = one_condition(&mut w.a, op);
+    let mut o = run_empty(&mut w, spend, list, if send { K_SEND_MESSAGE } else { K_RECEIVE_MESSAGE });
+    check_outcome(&mut w, &mut o, op, AC::Message(own_mode));
+    if o.err.is_none() {
+        let (parent, ph) = (w.parent, w.ph);
+        let v = w.state.verif_view();
+        let msg = &v.messages[v.messages.len() - 1];
+        assert!(msg.msg == m);
+        assert!(msg.counter == if send { 1 } else { -1 }, "a send counts +1, a receive -1");
+        let (own, other) = if send { (&msg.src, &msg.dst) } else { (&msg.dst, &msg.src) };
+        // the own side commits to exactly the attributes selected by the mode bits
+        use chia_consensus::messages::SpendId;
+        let ok = match own_mode {
+            0 => matches!(own, SpendId::None),
+            1 => matches!(own, SpendId::Amount(x) if *x == coin_amount),
+            2 => matches!(own, SpendId::Puzzle(p) if *p == ph),
+            3 => matches!(own, SpendId::PuzzleAmount(p, x) if *p == ph && *x == coin_amount),
+            4 => matches!(own, SpendId::Parent(p) if *p == parent),
+            5 => matches!(own, SpendId::ParentAmount(p, x) if *p == parent && *x == coin_amount),
+            6 => matches!(own, SpendId::ParentPuzzle(p, q) if *p == parent && *q == ph),
+            _ => matches!(own, SpendId::OwnedCoinId(id) if id.as_ref().as_ref() == &w.coin_id[..]),
+        };
+        assert!(ok, "own side of the message is derived from the spend's own attributes");
+        // the other side is what the condition said
+        let same = match sid {
+            0 => matches!(other, SpendId::None),
+            1 => matches!(other, SpendId::CoinId(n) if *n == other1),
+            2 => matches!(other, SpendId::Parent(n) if *n == other1),
+            3 => matches!(other, SpendId::Puzzle(n) if *n == other1),
+            4 => matches!(other, SpendId::Amount(x) if *x == amt),
+            5 => matches!(other, SpendId::PuzzleAmount(n, x) if *n == other1 && *x == amt),
+            6 => matches!(other, SpendId::ParentAmount(n, x) if *n == other1 && *x == amt),
+            _ => matches!(other, SpendId::ParentPuzzle(n, q) if *n == other1 && *q == other2),
+        };
+        assert!(same);
+    }
+    kani::cover!(o.err.is_none() && own_mode == 7);
+    kani::cover!(o.err.is_none() && own_mode == 0);
+    kani::cover!(o.err == Some(ErrorCode::InvalidMessageMode));
+    finish(w);
+}
+arm_harness!(arm_msg_send, crate::arm::pa_send_message, 36, { msg_arm(true) });
+arm_harness!(arm_msg_receive, crate::arm::pa_receive_message, 36, { msg_arm(false) });
